@@ -1,5 +1,499 @@
 import AkVerif.Gen.C10
-import AkVerif.Model.PaletteState
-/-! # C10 — rendering is pure (theorems under construction) -/
+import AkVerif.Lemmas.PaletteOps
+/-!
+# C10 — rendering is pure: colours never change layout and output has no memory
+
+Property theorems only.  `cfg` is the class table *generated from the source* (`Gen.C10`): built-in
+syntax ids, every palette class of the package with its `SYNTAX_DEFAULTS`, `PARENT_PALETTES` and
+accessors, and the way `PPEnumFieldType` keys its cell cache.  The two facts about it that the
+history theorems rest on (`cfg_ok`, `key_by_object`) are re-decided by the kernel whenever the
+source changes: on the tree before `fix: key enum cell cache by palette object` the second one is
+false and `history_free` / `nocolor_no_esc` / `strip_eq` stop checking.
+
+A *history* is any list of operations (`Op`: create / drop a configuration, release memory with any
+closed keep-set, replace the global configuration, create / drop an enum field type, render any
+shape under any configuration, coloured or not) run from the fresh interpreter state with any
+allocator that returns addresses not in use (`ValidAlloc`).
+-/
 namespace C10
+open PaletteState Render Ak
+
+abbrev cfg : Cfg := Gen.C10.cfg
+
+/-- the generated class table is well formed: the default syntax id is built in, every built-in and
+default description is well formed, defaults of palette classes refer to built-in ids only -/
+theorem cfg_ok : cfgOk cfg = true := by decide +kernel
+
+/-- `PPEnumFieldType` keys its cell cache by the palette object (which the cache keeps alive), not by
+its address -/
+theorem key_by_object : cfg.keyByObj = true := by decide
+
+/-- the state after some history, for some allocator -/
+def Reachable (s : State) : Prop :=
+  ∃ (alloc : Alloc) (ops : List Op), ValidAlloc alloc ∧ s = run cfg alloc (initState cfg) ops
+
+/-- every cache entry of a reachable state refers to a live palette of the right kind and holds what
+would be recomputed (`PaletteState.Inv`) -/
+theorem reachable_inv {s : State} (h : Reachable s) : Inv cfg s := by
+  obtain ⟨alloc, ops, hal, rfl⟩ := h
+  exact run_inv cfg_ok key_by_object hal ops _ (initState_inv cfg_ok)
+
+private theorem colorChunks_plain (s : State) (p : Addr) (top : ClassId) :
+    ∀ (chs : List SChunk) (cs : List Chunk), colorChunks s p top chs = .ok cs →
+      plainOf cs = chs.flatMap (·.text) := by
+  intro chs
+  induction chs with
+  | nil => intro cs h; simp [colorChunks] at h; subst h; rfl
+  | cons ch rest ih =>
+    intro cs h
+    simp only [colorChunks, bind, Except.bind] at h
+    cases h1 : tagColor s p top ch.tag with
+    | error e => simp [h1] at h
+    | ok col =>
+      simp only [h1] at h
+      cases h2 : colorChunks s p top rest with
+      | error e => simp [h2] at h
+      | ok cs' =>
+        simp only [h2] at h
+        cases h
+        simp [ih cs' h2]
+
+private theorem colorLines_plain (s : State) (p : Addr) (top : ClassId) :
+    ∀ (ls : List SLine) (out : List (List Chunk)), colorLines s p top ls = .ok out →
+      out.map plainOf = ls.map fun l => l.chunks.flatMap (·.text) := by
+  intro ls
+  induction ls with
+  | nil => intro out h; simp [colorLines] at h; subst h; rfl
+  | cons l rest ih =>
+    intro out h
+    simp only [colorLines, bind, Except.bind] at h
+    cases h1 : colorChunks s p top l.chunks with
+    | error e => simp [h1] at h
+    | ok cs =>
+      simp only [h1] at h
+      cases h2 : colorLines s p top rest with
+      | error e => simp [h2] at h
+      | ok out' =>
+        simp only [h2] at h
+        cases h
+        have e1 := colorChunks_plain s p top l.chunks cs h1
+        simp only [List.map_cons, ih out' h2]
+        cases l.kind <;> simp [plainOf_mergeAdj, e1]
+
+private theorem render_plain {alloc : Alloc} {k : ConfId} {nc : Bool} {sh : Shape} {s s' : State}
+    {out : List (List Chunk)} (h : render cfg alloc k nc sh s = .ok (s', out)) :
+    out.map plainOf = sh.lines.map fun l => l.chunks.flatMap (·.text) := by
+  unfold render at h
+  simp only [bind, Except.bind] at h
+  cases h1 : mkPalette cfg alloc sh.top k nc s with
+  | error e => simp [h1] at h
+  | ok r =>
+    obtain ⟨s1, p⟩ := r
+    simp only [h1] at h
+    cases h2 : getSubs cfg alloc p sh.subs s1 with
+    | error e => simp [h2] at h
+    | ok s2 =>
+      simp only [h2] at h
+      cases h3 : colorLines s2 p sh.top sh.lines with
+      | error e => simp [h3] at h
+      | ok lines =>
+        simp only [h3] at h
+        cases h
+        exact colorLines_plain s2 p sh.top sh.lines out h3
+
+/-- **Colours never change the layout.** Whatever the two states, allocators, configurations and
+colour modes: two renderings of the same shape have the same visible characters — line by line and
+as a whole text. (No hypothesis on the states: this holds even with stale caches.) -/
+theorem layout_indep {a₁ a₂ : Alloc} {k₁ k₂ : ConfId} {nc₁ nc₂ : Bool} {sh : Shape} {s₁ s₁' s₂ s₂' : State}
+    {o₁ o₂ : List (List Chunk)}
+    (h₁ : render cfg a₁ k₁ nc₁ sh s₁ = .ok (s₁', o₁)) (h₂ : render cfg a₂ k₂ nc₂ sh s₂ = .ok (s₂', o₂)) :
+    o₁.map plainOf = o₂.map plainOf ∧
+    plainOf (wholeOf '\n' o₁) = plainOf (wholeOf '\n' o₂) := by
+  have e : o₁.map plainOf = o₂.map plainOf := by rw [render_plain h₁, render_plain h₂]
+  exact ⟨e, plainOf_wholeOf_congr '\n' o₁ o₂ e⟩
+
+/-- **History-free rendering.** After any history, with any allocator: a rendering of a shape under
+configuration `k` equals the shape painted by a function of the configuration's description alone
+(`pureColor`: the colour `get_color` gives to the accessor's syntax id) — always for no-colour
+renderings; for coloured ones when every description of the configuration was resolved at its
+creation (`closed`) and no accessor used waits for another palette class (`tagStable`).
+The configuration may have learnt new syntax ids during the rendering (`c'`), its `closed` flag and
+colour mode never change. -/
+theorem history_free {s s' : State} (hs : Reachable s) {alloc : Alloc} (hal : ValidAlloc alloc)
+    {k : ConfId} {nc : Bool} {sh : Shape} {out : List (List Chunk)}
+    (h : render cfg alloc k nc sh s = .ok (s', out)) :
+    ∃ c c', s.confs.lookup k = some c ∧ s'.confs.lookup k = some c' ∧ c'.closed = c.closed ∧
+      c'.noColor = c.noColor ∧
+      ((nc = false → c.closed = true ∧ ∀ t ∈ sh.tags, tagStable cfg t = true) →
+        out = paintLines (pureColor cfg c' nc) sh.lines) :=
+  (render_spec cfg_ok key_by_object hal (reachable_inv hs) h).2
+
+/-- **No memory across histories.** Two renderings of the same shape — in different reachable states,
+under configurations that ended up with the same descriptions — are identical. -/
+theorem same_description_same_output {s₁ s₁' s₂ s₂' : State} (hs₁ : Reachable s₁) (hs₂ : Reachable s₂)
+    {a₁ a₂ : Alloc} (ha₁ : ValidAlloc a₁) (ha₂ : ValidAlloc a₂) {k₁ k₂ : ConfId} {nc : Bool} {sh : Shape}
+    {o₁ o₂ : List (List Chunk)} {c₁ c₂ : Conf}
+    (h₁ : render cfg a₁ k₁ nc sh s₁ = .ok (s₁', o₁)) (h₂ : render cfg a₂ k₂ nc sh s₂ = .ok (s₂', o₂))
+    (hc₁ : s₁'.confs.lookup k₁ = some c₁) (hc₂ : s₂'.confs.lookup k₂ = some c₂)
+    (hsame : c₁.smap = c₂.smap ∧ c₁.noColor = c₂.noColor)
+    (hclosed : nc = false → c₁.closed = true ∧ c₂.closed = true ∧ ∀ t ∈ sh.tags, tagStable cfg t = true) :
+    o₁ = o₂ := by
+  obtain ⟨d₁, d₁', _, e₁, f₁, _, g₁⟩ := history_free hs₁ ha₁ h₁
+  obtain ⟨d₂, d₂', _, e₂, f₂, _, g₂⟩ := history_free hs₂ ha₂ h₂
+  rw [hc₁] at e₁; cases e₁
+  rw [hc₂] at e₂; cases e₂
+  rw [g₁ (fun hf => ⟨by rw [← f₁]; exact (hclosed hf).1, (hclosed hf).2.2⟩),
+      g₂ (fun hf => ⟨by rw [← f₂]; exact (hclosed hf).2.1, (hclosed hf).2.2⟩)]
+  have : pureColor cfg c₁ nc = pureColor cfg c₂ nc := by
+    funext t
+    cases t <;> simp only [pureColor]
+    all_goals (split; rfl; split; rfl; split; rfl; exact getColor_congr _ c₂ c₁ hsame.1 hsame.2 _)
+  rw [this]
+
+private theorem pureColor_nc (c : Conf) (t : Tag) : pureColor cfg c true t = [] := by
+  cases t <;> simp [pureColor]
+
+private theorem allPlain_paint (col : Tag → Color) (hcol : ∀ t, col t = []) (ls : List SLine) :
+    ∀ l ∈ paintLines col ls, AllPlain l := by
+  intro l hl
+  simp only [paintLines, List.mem_map] at hl
+  obtain ⟨sl, _, rfl⟩ := hl
+  have base : AllPlain (paintChunks col sl.chunks) := by
+    intro c hc
+    simp only [paintChunks, List.mem_map] at hc
+    obtain ⟨ch, _, rfl⟩ := hc
+    exact hcol _
+  unfold paintLine
+  cases sl.kind
+  · exact base
+  · exact allPlain_mergeAdj _ base
+
+private theorem esc_notin_joinCells (out : List (List Chunk)) (hlines : ∀ l ∈ out, esc ∉ plainOf l) :
+    esc ∉ (joinCells '\n' out).map Prod.fst := by
+  induction out with
+  | nil => simp [joinCells]
+  | cons l rest ih =>
+    cases rest with
+    | nil =>
+      simp only [joinCells]
+      rw [← plainOf_eq_cells]; exact hlines l (by simp)
+    | cons l2 r2 =>
+      simp only [joinCells, List.map_append, List.map_cons, List.mem_append, List.mem_cons, not_or]
+      refine ⟨by rw [← plainOf_eq_cells]; exact hlines l (by simp), by decide, ?_⟩
+      exact ih (fun x hx => hlines x (by simp [hx]))
+
+/-- **No-colour output has no escape sequence.** After any history a no-colour rendering consists of
+chunks without prefix: the text printed is exactly the plain text, so it contains an ESC only if the
+content itself does. -/
+theorem nocolor_no_esc {s s' : State} (hs : Reachable s) {alloc : Alloc} (hal : ValidAlloc alloc)
+    {k : ConfId} {sh : Shape} {out : List (List Chunk)}
+    (h : render cfg alloc k true sh s = .ok (s', out)) :
+    (∀ l ∈ out, AllPlain l) ∧
+    strOf (wholeOf '\n' out) = plainOf (wholeOf '\n' out) ∧
+    ((∀ l ∈ sh.lines, ∀ ch ∈ l.chunks, esc ∉ ch.text) → esc ∉ strOf (wholeOf '\n' out)) := by
+  obtain ⟨c, c', _, _, _, _, g⟩ := history_free hs hal h
+  have hout := g (by simp)
+  have hplain : ∀ l ∈ out, AllPlain l := by
+    rw [hout]; exact allPlain_paint _ (pureColor_nc c') sh.lines
+  have hwhole : AllPlain (wholeOf '\n' out) :=
+    allPlain_buildText _ (allPlain_joinLines '\n' out hplain)
+  refine ⟨hplain, strOf_allPlain _ hwhole, ?_⟩
+  intro hesc
+  rw [strOf_allPlain _ hwhole, plainOf_eq_cells, cellsOf_wholeOf]
+  -- the characters are those of the lines and the separators
+  have hlines : ∀ l ∈ out, esc ∉ plainOf l := by
+    intro l hl
+    have hm : plainOf l ∈ out.map plainOf := List.mem_map.mpr ⟨l, hl, rfl⟩
+    rw [render_plain h] at hm
+    obtain ⟨sl, hsl, he⟩ := List.mem_map.mp hm
+    rw [← he]
+    intro hin
+    obtain ⟨ch, hch, hin'⟩ := List.mem_flatMap.mp hin
+    exact hesc sl hsl ch hch hin'
+  exact esc_notin_joinCells out hlines
+
+/-! Well-formed prefixes: what `strip_colors` needs. -/
+
+private def Good (c : Chunk) : Prop := ValidPrefix c.pre ∧ esc ∉ c.text
+
+private theorem good_mergeAdj (cs : List Chunk) (h : ∀ c ∈ cs, Good c) : ∀ c ∈ mergeAdj cs, Good c := by
+  induction cs with
+  | nil => simp [mergeAdj]
+  | cons c rest ih =>
+    have hc := h c (by simp)
+    have hr := ih (fun d hd => h d (by simp [hd]))
+    simp only [mergeAdj]
+    split
+    · intro x hx; simp at hx; subst hx; exact hc
+    · rename_i d ds hm
+      rw [hm] at hr
+      have hd := hr d (by simp)
+      split
+      · intro x hx
+        simp at hx
+        rcases hx with rfl | hx
+        · exact ⟨hc.1, by simp only [List.mem_append, not_or]; exact ⟨hc.2, hd.2⟩⟩
+        · exact hr x (by simp [hx])
+      · intro x hx
+        simp at hx
+        rcases hx with rfl | rfl | hx
+        · exact hc
+        · exact hd
+        · exact hr x (by simp [hx])
+
+private theorem good_appendRev (acc : List Chunk) (c : Chunk) (ha : ∀ d ∈ acc, Good d) (hc : Good c) :
+    ∀ d ∈ appendRev acc c, Good d := by
+  unfold appendRev
+  split
+  · exact ha
+  · cases acc with
+    | nil => intro x hx; simp at hx; subst hx; exact hc
+    | cons d ds =>
+      have hd := ha d (by simp)
+      simp only []
+      split
+      · intro x hx
+        simp at hx
+        rcases hx with rfl | hx
+        · exact ⟨hd.1, by simp only [List.mem_append, not_or]; exact ⟨hd.2, hc.2⟩⟩
+        · exact ha x (by simp [hx])
+      · intro x hx
+        simp at hx
+        rcases hx with rfl | rfl | hx
+        · exact hc
+        · exact hd
+        · exact ha x (by simp [hx])
+
+private theorem good_buildText (cs : List Chunk) (h : ∀ c ∈ cs, Good c) : ∀ c ∈ buildText cs, Good c := by
+  have : ∀ (cs acc : List Chunk), (∀ d ∈ acc, Good d) → (∀ c ∈ cs, Good c) → ∀ d ∈ cs.foldl appendRev acc, Good d := by
+    intro cs
+    induction cs with
+    | nil => intro acc ha _; exact ha
+    | cons c cs ih =>
+      intro acc ha hc
+      exact ih _ (good_appendRev acc c ha (hc c (by simp))) (fun d hd => hc d (by simp [hd]))
+  intro c hc
+  simp only [buildText, List.mem_reverse] at hc
+  exact this cs [] (by simp) h c hc
+
+private theorem good_joinLines (ls : List (List Chunk)) (h : ∀ l ∈ ls, ∀ c ∈ l, Good c) :
+    ∀ c ∈ joinLines '\n' ls, Good c := by
+  induction ls with
+  | nil => simp [joinLines]
+  | cons l rest ih =>
+    cases rest with
+    | nil => exact h l (by simp)
+    | cons l2 r2 =>
+      intro c hc
+      simp only [joinLines, List.mem_append, List.mem_cons] at hc
+      rcases hc with hc | rfl | hc
+      · exact h l (by simp) c hc
+      · exact ⟨Or.inl rfl, by decide⟩
+      · exact ih (fun x hx => h x (by simp [hx])) c (by simpa [joinLines] using hc)
+
+private theorem tagColor_valid {s : State} (hinv : Inv cfg s) (p : Addr) (top : ClassId) (t : Tag) {col : Color}
+    (h : tagColor s p top t = .ok col) : ValidPrefix col := by
+  have pal : ∀ a pa i, getPal s a = .ok pa → nth pa.colors i = .ok col → ValidPrefix col := by
+    intro a pa i hpa hn
+    unfold getPal at hpa
+    split at hpa
+    · rename_i q hq
+      cases hpa
+      obtain ⟨_, _, _, hv, _⟩ := hinv.pals a pa hq
+      exact hv col (List.mem_of_getElem? (nth_some hn))
+    · cases hpa
+  cases t with
+  | plain => simp [tagColor] at h; subst h; left; rfl
+  | pal c i =>
+    simp only [tagColor, bind, Except.bind] at h
+    by_cases hcp : c = top
+    · simp only [hcp, if_true] at h
+      cases hg : getPal s p with
+      | error e => simp [hg] at h
+      | ok pa => simp only [hg] at h; exact pal p pa i hg h
+    · simp only [hcp, if_false] at h
+      cases ha : subAddr s p c with
+      | error e => simp [ha] at h
+      | ok a =>
+        simp only [ha] at h
+        cases hg : getPal s a with
+        | error e => simp [hg] at h
+        | ok pa => simp only [hg] at h; exact pal a pa i hg h
+  | enum e v c i =>
+    simp only [tagColor, bind, Except.bind] at h
+    cases ha : subAddr s p c with
+    | error er => simp [ha] at h
+    | ok a =>
+      simp only [ha] at h
+      split at h
+      · cases h
+      · rename_i ec hen
+        split at h
+        · rename_i cols hhit
+          obtain ⟨q, hq, hcols⟩ := hinv.enums key_by_object e ec a v cols hen hhit
+          obtain ⟨_, _, _, hv, _⟩ := hinv.pals a q hq
+          rw [hcols] at h
+          exact hv col (List.mem_of_getElem? (nth_some h))
+        · cases hg : getPal s a with
+          | error er => simp [hg] at h
+          | ok pa => simp only [hg] at h; exact pal a pa i hg h
+
+private theorem colorChunks_good {s : State} (hinv : Inv cfg s) (p : Addr) (top : ClassId) :
+    ∀ (chs : List SChunk) (cs : List Chunk), (∀ ch ∈ chs, esc ∉ ch.text) → colorChunks s p top chs = .ok cs →
+      ∀ c ∈ cs, Good c := by
+  intro chs
+  induction chs with
+  | nil => intro cs _ h; simp [colorChunks] at h; subst h; simp
+  | cons ch rest ih =>
+    intro cs hesc h
+    simp only [colorChunks, bind, Except.bind] at h
+    cases h1 : tagColor s p top ch.tag with
+    | error e => simp [h1] at h
+    | ok col =>
+      simp only [h1] at h
+      cases h2 : colorChunks s p top rest with
+      | error e => simp [h2] at h
+      | ok cs' =>
+        simp only [h2] at h
+        cases h
+        intro c hc
+        simp at hc
+        rcases hc with rfl | hc
+        · exact ⟨tagColor_valid hinv p top ch.tag h1, hesc ch (by simp)⟩
+        · exact ih cs' (fun x hx => hesc x (by simp [hx])) h2 c hc
+
+private theorem colorLines_good {s : State} (hinv : Inv cfg s) (p : Addr) (top : ClassId) :
+    ∀ (ls : List SLine) (out : List (List Chunk)), (∀ l ∈ ls, ∀ ch ∈ l.chunks, esc ∉ ch.text) →
+      colorLines s p top ls = .ok out → ∀ l ∈ out, ∀ c ∈ l, Good c := by
+  intro ls
+  induction ls with
+  | nil => intro out _ h; simp [colorLines] at h; subst h; simp
+  | cons l rest ih =>
+    intro out hesc h
+    simp only [colorLines, bind, Except.bind] at h
+    cases h1 : colorChunks s p top l.chunks with
+    | error e => simp [h1] at h
+    | ok cs =>
+      simp only [h1] at h
+      cases h2 : colorLines s p top rest with
+      | error e => simp [h2] at h
+      | ok out' =>
+        simp only [h2] at h
+        cases h
+        have g1 := colorChunks_good hinv p top l.chunks cs (hesc l (by simp)) h1
+        intro x hx
+        simp at hx
+        rcases hx with rfl | hx
+        · cases l.kind
+          · exact g1
+          · exact good_mergeAdj cs g1
+        · exact ih out' (fun y hy => hesc y (by simp [hy])) h2 x hx
+
+private theorem render_good {alloc : Alloc} (hal : ValidAlloc alloc) {k : ConfId} {nc : Bool} {sh : Shape}
+    {s s' : State} {out : List (List Chunk)} (hinv : Inv cfg s)
+    (hesc : ∀ l ∈ sh.lines, ∀ ch ∈ l.chunks, esc ∉ ch.text)
+    (h : render cfg alloc k nc sh s = .ok (s', out)) : ∀ l ∈ out, ∀ c ∈ l, Good c := by
+  unfold render at h
+  simp only [bind, Except.bind] at h
+  cases h1 : mkPalette cfg alloc sh.top k nc s with
+  | error e => simp [h1] at h
+  | ok r =>
+    obtain ⟨s1, p⟩ := r
+    simp only [h1] at h
+    obtain ⟨hinv1, _, _⟩ := mkPalette_spec cfg_ok hal hinv h1
+    cases h2 : getSubs cfg alloc p sh.subs s1 with
+    | error e => simp [h2] at h
+    | ok s2 =>
+      simp only [h2] at h
+      obtain ⟨hinv2, _⟩ := getSubs_spec cfg_ok hal p sh.subs s1 s2 hinv1 h2
+      cases h3 : colorLines s2 p sh.top sh.lines with
+      | error e => simp [h3] at h
+      | ok lines =>
+        simp only [h3] at h
+        cases h
+        exact colorLines_good hinv2 p sh.top sh.lines out hesc h3
+
+/-- **Stripping the colours gives the no-colour rendering.** After any histories: the coloured
+rendering of a shape with ESC-free content, with every `ESC [ … m` removed (`CHText.strip_colors`), is
+character for character the no-colour rendering of the same shape — whatever the configurations. -/
+theorem strip_eq {s₁ s₁' s₂ s₂' : State} (hs₁ : Reachable s₁) (hs₂ : Reachable s₂)
+    {a₁ a₂ : Alloc} (ha₁ : ValidAlloc a₁) (ha₂ : ValidAlloc a₂) {k₁ k₂ : ConfId} {nc₁ : Bool} {sh : Shape}
+    {o₁ o₂ : List (List Chunk)}
+    (hesc : ∀ l ∈ sh.lines, ∀ ch ∈ l.chunks, esc ∉ ch.text)
+    (h₁ : render cfg a₁ k₁ nc₁ sh s₁ = .ok (s₁', o₁)) (h₂ : render cfg a₂ k₂ true sh s₂ = .ok (s₂', o₂)) :
+    strip (strOf (wholeOf '\n' o₁)) = strOf (wholeOf '\n' o₂) := by
+  have g := good_buildText _ (good_joinLines o₁ (render_good ha₁ (reachable_inv hs₁) hesc h₁))
+  rw [show wholeOf '\n' o₁ = buildText (joinLines '\n' o₁) from rfl]
+  rw [strip_strOf _ (fun c hc => (g c hc).1) (fun c hc => (g c hc).2)]
+  rw [(nocolor_no_esc hs₂ ha₂ h₂).2.1]
+  exact (layout_indep h₁ h₂).2
+
+/-- **Line by line = whole.** The whole text shows the same characters in the same colours as the
+generated lines joined by plain newlines (chunks may be split differently: a whole text merges
+neighbours of equal colour and drops empty chunks, a line does not). -/
+theorem lines_eq_whole {alloc : Alloc} {k : ConfId} {nc : Bool} {sh : Shape} {s s' : State}
+    {out : List (List Chunk)} (_h : render cfg alloc k nc sh s = .ok (s', out)) :
+    cellsOf (wholeOf '\n' out) = joinCells '\n' out ∧
+    plainOf (wholeOf '\n' out) = (joinCells '\n' out).map Prod.fst :=
+  ⟨cellsOf_wholeOf '\n' out, by rw [plainOf_eq_cells, cellsOf_wholeOf]⟩
+
+/-! ## Checked examples
+
+A one-line "table": a border chunk (accessor `border` of `TablePalette`, class 3), a cell of enum type 0
+for value 0 (accessor `name_good` of `EnumPalette`, class 5, through the cell cache), a border chunk.
+The sub-palettes are requested in the order `RecordPalette`, `EnumPalette`, `TitlePalette`. -/
+
+private def plainDescr (fg : String) : Descr := ⟨none, .elem fg.toList, .inherit, [none, none, none, none, none]⟩
+private def aliasDescr (parent : String) : Descr := ⟨some parent.toList, .inherit, .inherit, [none, none, none, none, none]⟩
+
+private def sh : Shape :=
+  ⟨3, [1, 5, 2], [⟨.raw, [⟨.pal 3 1, "|".toList⟩, ⟨.enum 0 0 5 4, "one".toList⟩, ⟨.pal 3 1, "|".toList⟩]⟩]⟩
+
+/-- configuration 1 = `{"TEXT": "RED"}` renders the table, is dropped, memory is collected (CPython:
+`del conf; gc.collect()`), configuration 2 = `{"TEXT": "GREEN"}` is created -/
+private def afterDrop (cf : Cfg) : State :=
+  let s := run cf reuseAlloc (initState cf)
+    [.newEnum 0, .newConf 1 false [("TEXT".toList, plainDescr "31")], .render 1 false sh]
+  match newConf cf 2 false [("TEXT".toList, plainDescr "32")] (collect cf (dropConf 1 s)) with
+  | .ok s' => s'
+  | .error _ => s
+
+/-- is the rendering of `sh` under configuration `k` the pure function of the configuration? -/
+private def pureRendering (cf : Cfg) (k : ConfId) (s : State) : Bool × List (List Chunk) :=
+  match render cf reuseAlloc k false sh s with
+  | .ok (s', out) =>
+    match s'.confs.lookup k with
+    | some c' => (decide (out = paintLines (pureColor cf c' false) sh.lines), out)
+    | none => (false, out)
+  | .error _ => (false, [])
+
+/-- the hypotheses of `history_free` are satisfiable: configuration 2 is closed, the tags are stable,
+the rendering succeeds, and (as the theorem says) it is the pure one: green cell, green border -/
+example : pureRendering cfg 2 (afterDrop cfg) =
+    (true, [[⟨"\x1b[32m".toList, "|".toList⟩, ⟨"\x1b[32m".toList, "one".toList⟩, ⟨"\x1b[32m".toList, "|".toList⟩]]) := by
+  decide +kernel
+example : ((afterDrop cfg).confs.lookup 2).map (·.closed) = some true ∧ sh.tags.all (tagStable cfg) = true := by
+  decide +kernel
+
+/-- **the defect repaired by `fix: key enum cell cache by palette object`**: with the cache keyed by
+`id(field_palette)` the same history renders the cell with the colours of the discarded configuration
+(RED under `{"TEXT": "GREEN"}`): the new enum palette got the address of the collected one -/
+example : pureRendering { cfg with keyByObj := false } 2 (afterDrop { cfg with keyByObj := false }) =
+    (false, [[⟨"\x1b[32m".toList, "|".toList⟩, ⟨"\x1b[31m".toList, "one".toList⟩, ⟨"\x1b[32m".toList, "|".toList⟩]]) := by
+  decide +kernel
+
+/-- **known finding `late_resolution`**: `history_free` needs `closed`. Under
+`{"TABLE.BORDER": "RECORD.TITLE"}` (a description that waits for a syntax id that `TitlePalette`
+registers) the first rendering has a plain border, the second a green bold one -/
+private def dangling : State :=
+  run cfg reuseAlloc (initState cfg)
+    [.newEnum 0, .newConf 1 false [("TABLE.BORDER".toList, aliasDescr "RECORD.TITLE")]]
+
+example : (dangling.confs.lookup 1).map (·.closed) = some false := by decide +kernel
+example : pureRendering cfg 1 dangling =
+    (false, [[⟨[], "|".toList⟩, ⟨[], "one".toList⟩, ⟨[], "|".toList⟩]]) := by decide +kernel
+example : pureRendering cfg 1 (step cfg reuseAlloc dangling (.render 1 false sh)) =
+    (true, [[⟨"\x1b[32;1m".toList, "|".toList⟩, ⟨[], "one".toList⟩, ⟨"\x1b[32;1m".toList, "|".toList⟩]]) := by
+  decide +kernel
+
 end C10
